@@ -272,6 +272,26 @@ def gen_enc(ch):
     return dict(kind="enc", table=c["table"], smiles=c["smiles"])
 
 
+def gen_dec_templates(ch):
+    """big structured strings (many rings incl. > 99 over several fragments, long chains, towers): the flag must not
+    change the translation there either"""
+    toks = G.gen_template(ch) if hasattr(G, "gen_template") else None
+    w = ch.int(0, 3)
+    unit = ["[C]", "[C]", "[C]", "[Ring1]", "[Ring1]"]
+    if w == 0:
+        toks = unit * ch.pick([40, 70, 101]) + ["."] + unit * ch.pick([3, 40, 60]) + ["."] + unit * ch.int(1, 5)
+    elif w == 1:
+        toks = G.tower_tokens(ch.pick([20, 120, 400]), "[C]") + [".", "[O]", "[C]"]
+    elif w == 2 or toks is None:
+        toks = ["[C]"] * ch.pick([200, 600]) + ["[Ring3]", "[C]", "[Ring1]", "[Ring2]", ".", "[N]", "[=O]"]
+    return dict(kind="dec", table="default", toks=toks)
+
+
 def shard(ctx):
+    ctx.drive("decoder_templates", gen_dec_templates, ctx.n(6, 60), max_bytes=64)
+    if ctx.shard == 0:
+        unit = ["[C]", "[C]", "[C]", "[Ring1]", "[Ring1]"]
+        ctx.check(dict(kind="dec", table="default", toks=unit * 101 + ["."] + unit * 3))
+        ctx.check(dict(kind="dec", table="default", toks=unit * 60 + ["."] + unit * 50 + ["."] + unit * 2))
     ctx.drive("decoder", gen_dec, ctx.n(2000, 30000), max_bytes=1200)
     ctx.drive("encoder", gen_enc, ctx.n(2000, 30000), max_bytes=900)
